@@ -218,7 +218,10 @@ impl AST {
                         Self::translate_expr(*def.left, ops, root);
                         ops.push(Op::Noop, def.pos);
                         let idx = ops.len() - 1;
+                        let right_pos = def.right.pos().clone();
                         Self::translate_expr(*def.right, ops, root);
+                        // Both sides of a boolean operator have to be boolean.
+                        ops.push(Op::CheckBool, right_pos);
                         let jptr = (ops.len() - 1 - idx) as i32;
                         ops.replace(idx, Op::And(jptr));
                     }
@@ -226,7 +229,10 @@ impl AST {
                         Self::translate_expr(*def.left, ops, root);
                         ops.push(Op::Noop, def.pos); // Placeholder
                         let idx = ops.len() - 1;
+                        let right_pos = def.right.pos().clone();
                         Self::translate_expr(*def.right, ops, root);
+                        // Both sides of a boolean operator have to be boolean.
+                        ops.push(Op::CheckBool, right_pos);
                         let jptr = (ops.len() - 1 - idx) as i32;
                         ops.replace(idx, Op::Or(jptr));
                     }
